@@ -93,3 +93,10 @@ func (vs *VerifSession) Close() {
 	vs.s.close()
 	vs.s.release()
 }
+
+// File-number allocator (C09 / C07): the session's own allocFileNum / reuseFileNum /
+// markFileNum, called from several goroutines.
+func (vs *VerifSession) AllocNum() int64  { return vs.s.allocFileNum() }
+func (vs *VerifSession) ReuseNum(n int64) { vs.s.reuseFileNum(n) }
+func (vs *VerifSession) MarkNum(n int64)  { vs.s.markFileNum(n) }
+func (vs *VerifSession) NextNum() int64   { return vs.s.nextFileNum() }
